@@ -72,14 +72,15 @@ def handler(case):
                 cats.append((p, q, F(c["A"]), F(c["B"])))
         b.set_load_and_cost(i)
         ops = ["prof load " + f"{n} {i} " + " ".join(f"{flist(p)} {flist(q)} {fr(A)} {fr(B)}" for p, q, A, B in cats)]
-        impl = [f"{fr(b.pload)} {fr(b.qload)} {fr(F(b.cost) if isinstance(b.cost, float) else b.cost)}"]
+        cost_now = b.get_cost()          # the shedding cost is what the accessor used by the shedding problem returns
+        impl = [f"{fr(b.pload)} {fr(b.qload)} {fr(F(cost_now) if isinstance(cost_now, float) else cost_now)}"]
         want_p = sum(p[i] * n for p, q, A, B in cats)
         if b.pload != want_p or b.qload != sum(q[i] * n for p, q, A, B in cats):
             viols.append(("load.sum", f"demand {b.pload} != sum over categories of profile x customers = {want_p}"))
         costs = [A + B for p, q, A, B in cats]
         want_c = max(costs) if costs and max(costs) > 0 else 10 ** 8
-        if b.cost != want_c:
-            viols.append(("load.cost", f"shedding cost {b.cost}, expected {want_c} (highest category cost / default)"))
+        if cost_now != want_c:
+            viols.append(("load.cost", f"shedding cost {cost_now}, expected {want_c} (highest category cost / default)"))
         return dict(ops=ops, impl=impl, viols=viols, nontrivial=("load", len(cats), n == 0, want_c == 10 ** 8), tag="load")
     if k == "prod":
         from relsad.network.components import Bus, Production
